@@ -24,6 +24,12 @@ use swc_vue_jsx_visitor::{Options, VueJsxTransformVisitor};
 #[derive(Clone, Default)]
 struct Collector(Arc<Mutex<Vec<(String, String)>>>);
 
+const PREEXISTING: &str = "vjx: an unrelated error reported before the transform ran";
+thread_local! {
+    /// when set, the diagnostic handler already holds an (unrelated) error when the visitor starts
+    pub static DIRTY_HANDLER: std::cell::Cell<bool> = const { std::cell::Cell::new(false) };
+}
+
 impl Emitter for Collector {
     fn emit(&mut self, db: &DiagnosticBuilder<'_>) {
         let level = match db.level {
@@ -81,6 +87,9 @@ pub fn run_pipeline(src: &str, syntax_name: Option<&str>, mode: Mode<'_>) -> Run
     let collector = Collector::default();
     let handler = Handler::with_emitter(true, false, Box::new(collector.clone()));
     let (syntax, is_ts) = syntax_of(syntax_name, true);
+    if DIRTY_HANDLER.with(|d| d.get()) {
+        handler.struct_err(PREEXISTING).emit();
+    }
 
     let mut errors = vec![];
     let parsed = parse_file_as_module(
@@ -174,7 +183,7 @@ pub fn run_pipeline(src: &str, syntax_name: Option<&str>, mode: Mode<'_>) -> Run
     program.mutate(fixer(Some(&comments)));
     let final_code = to_code_default(cm.clone(), Some(&comments), &program);
 
-    let diags = collector.0.lock().unwrap().clone();
+    let diags: Vec<(String, String)> = collector.0.lock().unwrap().iter().filter(|(_, m)| m != PREEXISTING).cloned().collect();
     RunOut {
         parse_error: None,
         diags,
@@ -373,8 +382,18 @@ pub fn run_case(case: &Case, long_lived: &Globals) -> Value {
             run_pipeline(&case.src, syntax, Mode::Visitor(&options))
         })
     });
+    // fourth: a handler that already holds an unrelated error (what was reported before is not an input of the transform)
+    let fourth = guarded(|| {
+        DIRTY_HANDLER.with(|d| d.set(true));
+        let r = GLOBALS.set(&Globals::new(), || {
+            run_pipeline(&case.src, syntax, Mode::Visitor(&options))
+        });
+        DIRTY_HANDLER.with(|d| d.set(false));
+        r
+    });
+    DIRTY_HANDLER.with(|d| d.set(false));
     let raw_sig1 = out.raw.as_ref().map(analyze::raw_signature);
-    for (name, r) in [("fresh", second), ("long_lived", third)] {
+    for (name, r) in [("fresh", second), ("long_lived", third), ("dirty_handler", fourth)] {
         match r {
             Ok(o) => {
                 let same = o.final_code.as_deref() == Some(final_code.as_str());
